@@ -71,6 +71,7 @@ import Sds.Proofs.GenEqRL1
 import Sds.Proofs.GenEqConstr
 import Sds.Proofs.GenEqRL2
 import Sds.Proofs.GenEqConstr4
+import Sds.Proofs.GenEqRLPred
 
 namespace Sds.C03
 open Sds Outcome
@@ -681,5 +682,28 @@ theorem rl_from_builder_as_translated_explicit_bounds (m : Mode) (b : RLBuilder)
     (hrun : b.run.2 ≠ 0 → b.data.len + 44 < U64 ∧ b.run.2 ≤ b.ones ∧ b.run.1 + b.run.2 < U64) :
     Generated.gen_RLVector_from_builder m b = RL.ofBuilder m b :=
   GenEq.rl_from_builder_eq m b hlen hones hs hrun
+
+/-! **`RLVector::predecessor` as translated from the source on this run** (`Generated/FnsRLPred.lean`).  Its `FnMut` closure
+assigns the captured local `iterate`; the closure is lambda-lifted from the source text (captured variables become
+parameters, the assigned one is threaded as state: `gen_RLVector_predecessor_closure`), `advance_if` is translated once
+more with a STATE-PASSING closure parameter (`gen_RunIter_advance_if_st`, related to the earlier pure-closure translation
+by `GenEq.run_advance_if_st_eq`: the closure is called exactly once, with the value `advance_if` returns), and the
+`while iterate { … }` loop threads `(iter, iterate)`.  Equal to the model's `RL.predecessor` — which the theorems above are
+about — in the wrapping build, whenever the model succeeds, and on every vector the builder can produce; in the checked
+build the two differ exactly where the model's `peek` adds the end of a run before the closure refuses it (observation O13
+again: `GenEq.rl_predecessor_ne`, a crafted vector with one run of 2^64 − 1 bits). -/
+theorem rl_predecessor_as_translated_from_source {m : Mode} {v : RL} (hb : GenEq.RLBounds m v) (value : Nat) (hlen : v.len < U64)
+    (hr : min value (v.len - 1) < v.len → GenEq.RangeOK v.rankIndex (min value (v.len - 1))) :
+    ((m = .checked → RL.predecessor m v value ≠ fault (.panic .overflow)) →
+        Generated.gen_RLVector_predecessor m v value = RL.predecessor m v value) ∧
+    (∀ r, RL.predecessor m v value = ok r → Generated.gen_RLVector_predecessor m v value = ok r) :=
+  ⟨fun hov => GenEq.rl_predecessor_eq hb value hlen hr hov,
+   fun r h => GenEq.rl_predecessor_eq_of_ok hb value hlen hr r h⟩
+
+/-- … and on every vector that the builder can produce, with no side condition on the outcome -/
+theorem rl_predecessor_as_translated_on_built_vectors {m : Mode} {v : RL} {bl : RLQ.Blocks} (g : RLQ.GoodB v bl)
+    (hd : v.data.len + 63 < U64) (hdec : m = .wrapping → ∀ o, ¬ GenEq.units23 v o) (value : Nat) :
+    Generated.gen_RLVector_predecessor m v value = RL.predecessor m v value :=
+  GenEq.rl_predecessor_eq_good g hd hdec value
 
 end Sds.C03
